@@ -34,6 +34,8 @@ def case_flags(rng, idx):
     f['associate_expr_complex'] = r == 3
     f['named_cycle_exit'] = r == 7
     f['double_not'] = r == 11
+    f['named_if'] = rng.random() < 0.5
+    f['quoted_strings'] = rng.random() < 0.5
     return f
 
 
